@@ -249,6 +249,12 @@ static void query_and_check(vh_ctx_t * v, const entry_t * e_in) {
     }
 }
 
+/* Source buffers of explicit-length pushes are exact-size everywhere in the malloc configuration.  In the static-heap
+ * configuration the pinned tree reads one byte past such a text when storing it (scpiheap_strndup copies the
+ * terminator position); so that this one defect is attributed to one phase ("exactsrc") instead of aborting every
+ * case of the configuration, the other phases append one readable sentinel byte (a double quote) there. */
+static int exact_src = !VH_INFO_HEAP;
+
 /* ---- pushing ---------------------------------------------------------------------------------------- */
 /* Pushes (code, text) the way an application would; fills *e with what the queue must now hold.
  * text == NULL: no text.  explicit_len: exact-size buffer without terminator; else NUL-terminated, length 0 passed. */
@@ -279,10 +285,12 @@ static void push_entry(vh_ctx_t * v, int code, const unsigned char * text, size_
     }
 #endif
     {
-        size_t blen = explicit_len ? tlen : tlen + 1;
+        /* explicit length: exact-size buffer without terminator (one byte too far traps under ASan); see exact_src */
+        size_t blen = (explicit_len && exact_src) ? tlen : tlen + 1;
         char * src = (char *) malloc(blen);
         memcpy(src, text, tlen);
         if (!explicit_len) src[tlen] = 0;
+        else if (!exact_src) src[tlen] = '"'; /* readable, but must never show up in a response */
         SCPI_ErrorPushEx(v->ctx, (int16_t) code, src, explicit_len ? tlen : 0);
         memset(src, 0x5A, blen); /* the library must have taken a copy */
         free(src);
@@ -571,12 +579,44 @@ static void p3_run(uint64_t idx, vh_rng_t * rng) {
     kflush();
 }
 
+/* ---- phase 4 (static-heap configuration): explicit-length pushes from exact-size source buffers ---------- */
+static uint64_t p4_count(int thorough) { return VH_INFO_HEAP ? (thorough ? 192 : 48) : 0; }
+static void p4_run(uint64_t idx, vh_rng_t * rng) {
+    vh_ctx_t * v = new_ctx();
+    static unsigned char t[MAXTEXT];
+    int k;
+    exact_src = 1;
+    vh_case_desc("static heap: explicit-length pushes from exact-size, unterminated source buffers, batch %llu", (unsigned long long) idx);
+    for (k = 0; k < 64; k++) {
+        size_t L = 1 + (size_t) ((idx * 64 + (uint64_t) k) % 320), split; unsigned q = vh_below(rng, 4);
+        int code = vh_chance(rng, 1, 2) ? -(int) vh_below(rng, 450) : (int) vh_below(rng, 65536) - 32768;
+        vh_sub = (uint64_t) k;
+        gen_base(t, L, rng, (int) vh_below(rng, 3));
+        while (q--) t[vh_below(rng, (uint32_t) L)] = '"';
+        switch (vh_below(rng, 6)) {
+            case 0: flow_single(v, code, t, L, 1, 1, (unsigned) k); continue;
+            case 1: split = L; break;        /* first part fills the heap to its end, second part empty */
+            case 2: split = L + 1; break;    /* text and terminator end exactly at the end of the heap */
+            case 3: split = L + 2; break;
+            case 4: split = L > 1 ? L - 1 : 1; break;
+            default: split = 1 + vh_below(rng, (uint32_t) L); break;
+        }
+        flow_behind(v, code, t, L, 1, split, rng, 0, (unsigned) k);
+    }
+    vh_count("heap.exact_size_source_batches", 1);
+    exact_src = !VH_INFO_HEAP;
+    vh_distinct(vh_hash_u64(idx, 400));
+    vh_ctx_free(v);
+    kflush();
+}
+
 int main(int argc, char ** argv) {
     static const vh_phase_t phases[] = {
         { "codes", p0_count, p0_run },
         { "lengths", p1_count, p1_run },
         { "limit", p2_count, p2_run },
         { "random", p3_count, p3_run },
+        { "exactsrc", p4_count, p4_run },
     };
     vh_require("query");
     vh_require("text.present");
@@ -597,5 +637,5 @@ int main(int argc, char ** argv) {
     vh_require("heap.wrapped_near_cut");
     vh_require("heap.wrapped_quote_at_split");
 #endif
-    return vh_main(argc, argv, "C18", phases, 4);
+    return vh_main(argc, argv, "C18", phases, 5);
 }
